@@ -36,19 +36,43 @@ MODELS = {
     "w256": lambda: nn.Sequential(nn.Linear(256, 4, bias=False)),
     "idiv": lambda: IDivMLP(),
 }
+
+
+def _nonneg_lin(fin, fout):
+    """Linear(48,fin) [weights+activations quantized] -> ReLU -> Linear(fin,fout) [weights only: consumes int8 activations, returns
+    float]; all parameters non-negative, so the integer sums of the wide contraction do not cancel."""
+    m = nn.Sequential(nn.Linear(48, fin), nn.ReLU(), nn.Linear(fin, fout))
+    m._nonneg = True
+    m._mixed = True
+    return m
+
+
+# size ladder (tiling / blocking / caching code paths far beyond the exhaustively explored sizes); not part of MODELS: the checks
+# that use them bound the history depth separately
+BIG = {
+    "big_lin": lambda: nn.Sequential(nn.Linear(4096, 1030)),  # 4.2M weights (> 2^22), 1030 rows
+    "big_pair": lambda: nn.Sequential(nn.Linear(2048, 2048), nn.ReLU(), nn.Linear(2048, 2048)),  # two layers of the same shape
+    "big_conv": lambda: nn.Sequential(nn.Conv2d(130, 1030, 3, padding=1)),  # 1.2M weights
+    "big_k25": lambda: _nonneg_lin(16384, 25),  # deep contraction with non-negative operands: integer sums exceed 2^24
+    "big_k27": lambda: _nonneg_lin(16384, 27),
+}
+BIG_SHAPE = {"big_lin": (2, 4096), "big_pair": (2, 2048), "big_conv": (1, 130, 4, 4), "big_k25": (2, 48), "big_k27": (2, 48)}
 IN_SHAPE = {"lin": (3, 16), "mlp": (3, 16), "ln": (2, 2, 16), "conv": (2, 2, 6, 6), "wide": (3, 160), "w256": (2, 256), "idiv": (3, 16)}
 
 
 def build_float(name, dtname):
     torch.manual_seed(0)
-    m = MODELS[name]()
+    m = (MODELS.get(name) or BIG[name])()
     for k, p in enumerate(m.parameters()):
         _fill(p, k)
+        if getattr(m, "_nonneg", False):
+            with torch.no_grad():
+                p.abs_()
     return m.to(num.DTYPES[dtname]).eval()
 
 
 def probe_input(name, dtname, k=0):
-    shape = IN_SHAPE[name]
+    shape = IN_SHAPE.get(name) or BIG_SHAPE[name]
     n = 1
     for d in shape:
         n *= d
@@ -89,6 +113,14 @@ def build_quantized(name, dtname, wname, aname, optimizer=False):
         kw["optimizer"] = custom_optimizer(wname)
     if wname:
         kw["weights"] = num.qt(wname)
+    if getattr(m, "_mixed", False):
+        # two quantize() calls with module filters: only the first layer quantizes its activations
+        kw1 = dict(kw)
+        if aname:
+            kw1["activations"] = num.qt(aname)
+        quantize(m, modules=[m[0]], **kw1)
+        quantize(m, modules=[m[2]], **kw)
+        return m
     if aname:
         kw["activations"] = num.qt(aname)
     quantize(m, **kw)
